@@ -11,7 +11,7 @@ Theorem C05_update_total_partial : forall hash s x,
 Proof. exact code_update_total. Qed.
 
 (* reachable states are well-formed, so the hypothesis above is met along every history *)
-Theorem C05_new_wf : forall m s, hll_new m = Ok s -> hwf s /\ h_m s = m /\ h_p s = N.log2 m.
+Theorem C05_new_wf : forall m al s, hll_new m al = Ok s -> hwf s /\ h_m s = m /\ h_p s = N.log2 m.
 Proof. exact new_wf. Qed.
 Theorem C05_update_preserves_wf : forall hic s x s',
   hwf s -> hll_update hic s x = Ok s' -> hwf s' /\ h_m s' = h_m s /\ h_p s' = h_p s.
@@ -24,7 +24,7 @@ Proof. intros p h; split; [exact (index_ge_1 p h)|exact (index_le_65 p h)]. Qed.
 (* REFUTED for m <= 64: for every accepted m in {1,..,64} some hash value makes Update panic *)
 Definition small_ms : list N := [1; 2; 4; 8; 16; 32; 64].
 Definition update_panics_on (m h : N) : bool :=
-  match hll_new m with
+  match hll_new m 0 with
   | Ok s => match hll_update (hic_of (fun _ => h)) s [] with Panic _ => true | _ => false end
   | _ => false
   end.
@@ -33,9 +33,9 @@ Proof. vm_compute. reflexivity. Qed.
 
 (* for m = 1 every update panics, whatever the hash *)
 Theorem C05_update_refuted_m1 : forall hash s x,
-  hll_new 1 = Ok s -> hll_update (hic_of hash) s x = Panic P_INDEX.
+  hll_new 1 0 = Ok s -> hll_update (hic_of hash) s x = Panic P_INDEX.
 Proof.
-  intros hash s x Hn. destruct (new_wf 1 s Hn) as (Hw & Hm & _).
+  intros hash s x Hn. destruct (new_wf 1 0 s Hn) as (Hw & Hm & _).
   apply update_panics; auto. rewrite Hm. unfold hic_of. exact (index_ge_1 (h_p s) (hash x)).
 Qed.
 
@@ -47,7 +47,7 @@ Theorem C05_empty_refuted :
   empty_check 128 91 = 1 /\ empty_check 1024 737 = 1.
 Proof. vm_compute. repeat split; reflexivity. Qed.
 
-Example C05_premises_hold : exists s, hll_new 128 = Ok s /\ 128 <= h_m s.
+Example C05_premises_hold : exists s, hll_new 128 0 = Ok s /\ 128 <= h_m s.
 Proof. eexists; split; [reflexivity|]. vm_compute. discriminate. Qed.
 
 Print Assumptions C05_update_total_partial.
